@@ -28,13 +28,13 @@ META["C19"] = {
 
 META["C16"] = {
     "text": "Bounded symbolic model checking of the real ConversionSupplySet (AddConversion, Payouts, PayoutBig, dust rule with SortTxIDS) for every bank and request amount in uint64: total paid <= bank and == bank when requests exceed it, full fill when they fit, each payout >= its proportional floor share, dust < request count and only to a largest request; payout <= request holds except for the recorded dust finding D9.",
-    "note": "1..3 requests quick, ..4 thorough; math/big as Int (NIA, z3 5.1); refund/bank-table glue (recordPegnetRequests, SyncBank, bank ledger rows) asserted in the holding harness",
+    "note": "1..3 requests quick, ..4 thorough; math/big as Int (NIA, z3 5.1); refund/bank-table glue (recordPegnetRequests, SyncBank, bank ledger rows) asserted in the holding harness (single held conversions) and in the peg-batch harness (one held batch of 2-3 PEG requests at rates 1:1: per-request share, dust, refund from the request's own input, recorded amounts)",
     "design_ref": "DESIGN.md §7 C16",
 }
 
 META["C13"] = {
     "text": "Bounded symbolic model checking of the real applyTransactionBatch for single conversions over the asset matrix: for EVERY height >= the tx activation, amount, balance, rate and average value the solver shows executed <=> admit(height, src, dst, rates, averages) written from the specification table (one-way pFCT, small caps and PEG, zero rates, unavailable averages under PIP-10, overflow), the documented reject code, and that non-executed conversions leave every table unchanged.",
-    "note": "quick: 3x62 + 62x3 pairs, thorough: full 62x62; spec constants copied into the harness; the from-2.0 PEG-destination rule is asserted in the holding harness (C05/C06 family)",
+    "note": "quick: 3x62 + 62x3 pairs (conversion alone or after a transfer in its batch), thorough: additionally the full 62x62 matrix for the single-transaction batch; 'average unavailable' itself is decided on the real GetPegNetRateAverages against an absolute reference (reduced period 4); spec constants copied into the harness; the from-2.0 PEG-destination rule is asserted in the holding harness (C05/C06 family)",
     "design_ref": "DESIGN.md §7 C13",
 }
 
@@ -67,7 +67,7 @@ META["C08"] = {
 
 META["C11"] = {
     "text": "Bounded symbolic model checking of the real ApplyGradedOPRBlock / ApplyGradedSPRBlock (+ InsertCoinbase, InsertStaking100Coinbase, AddToBalance) for an ARBITRARY grader verdict: each winner's payout address receives exactly Payout() once, an unparsable address pays nothing, nobody else changes, supply grows by the sum, one coinbase history record per paid winner with the amount.",
-    "note": "plus the glue harnesses: the real Grade/GradeS (entries handed to the grader, top-holder filter) and the real SyncBlock (who is paid in which era, FCT burns credited) with grader constructors and Factom requests stubbed (natively through a dependency hook overlay); the grading decision itself is dependency code; binding of the declared staker id to the signing key (D17) is not encoded (DESIGN §0.6); closed-era finding D7 (out-of-band block committed without its effects, incl. the winners' rewards) is reported as KNOWN-FINDING",
+    "note": "plus the real multiFetch under the goroutine model (a failed record request fails the block instead of handing the graders a block with a record missing) and the glue harnesses: the real Grade/GradeS (entries handed to the grader, top-holder filter) and the real SyncBlock (who is paid in which era, FCT burns credited) with grader constructors and Factom requests stubbed (natively through a dependency hook overlay); the grading decision itself is dependency code; binding of the declared staker id to the signing key (D17) is not encoded (DESIGN §0.6); closed-era finding D7 (out-of-band block committed without its effects, incl. the winners' rewards) is reported as KNOWN-FINDING",
     "design_ref": "DESIGN.md §7 C11",
 }
 META["C15"] = {
@@ -109,7 +109,7 @@ META["C10"] = {
 
 META["C18"] = {
     "text": "Bounded symbolic execution of the real getGlobalRichList API handler and of the sync side's GetPegNetRateAverages call as two goroutine bodies over one *Pegnetd, with a LOCKSET analysis of every access to the shared cache (struct fields and the maps published through them) along every solver-feasible path: no two conflicting accesses from different goroutines without a common mutex; plus: the handler's answer is identical before and during an open block transaction with pending writes, and handlers never write. Found D12 (unsynchronised cache), confirmed by the Go race detector, repaired by a fix: commit.",
-    "note": "two goroutines, one handler (getRichList uses the same call); schedule-independent lockset criterion instead of interleaving enumeration; Sync.Synced word read and the HTTP stack are outside",
+    "note": "two goroutines, one handler (getRichList uses the same call); read handlers with an optional height are also asked for the default height while the in-memory sync height is already bumped for an uncommitted block; schedule-independent lockset criterion instead of interleaving enumeration; Sync.Synced word read and the HTTP stack are outside",
     "design_ref": "DESIGN.md §7 C18",
     "technique": "symbolic execution of the real Go code (go/ssa -> SMT) with lockset race analysis over shared state; confirmed natively with go test -race",
 }
